@@ -209,7 +209,11 @@ static void case_c06(const args_t *a, long c, rng_t *r)
 	}
 	if (outmode == 3) {
 		char out[4200]; snprintf(out, sizeof out, "%s/out.mtbl", a->workdir); unlink(out);
-		struct mtbl_writer *w = mtbl_writer_init(out, NULL);
+		/* half of the pooled sorts write into a writer that uses the same pool (small blocks: many ordered jobs behind the sorter's unordered ones) */
+		struct mtbl_writer_options *wo = NULL;
+		if (pool && poolsz > 0 && rndn(r, 2) == 0) { wo = mtbl_writer_options_init(); mtbl_writer_options_set_threadpool(wo, pool); mtbl_writer_options_set_block_size(wo, 1024); mtbl_writer_options_set_compression(wo, (mtbl_compression_type)rndn(r, 6)); STAT("c06.out.sorter_write_into_writer_on_the_same_pool"); }
+		struct mtbl_writer *w = mtbl_writer_init(out, wo);
+		if (wo) mtbl_writer_options_destroy(&wo);
 		mtbl_res res = mtbl_sorter_write(s, w);
 		mtbl_writer_destroy(&w);
 		if (res != mtbl_res_success && want.n) viol("C06/sorter_write-failed", "mtbl_sorter_write returned failure");
